@@ -2,6 +2,7 @@ package main
 
 import (
 	"fmt"
+	"go/token"
 	"go/types"
 	"strings"
 
@@ -18,6 +19,7 @@ func init() {
 			a.c16PassThrough()
 			a.noEscapeOfWiped("S.no-escape-of-wiped")
 			a.c16Whitespace()
+			a.c16QueryParse("V.query-parse")
 		})
 }
 
@@ -607,4 +609,111 @@ func stripCT(v ssa.Value) ssa.Value {
 		}
 		return v
 	}
+}
+
+// c16QueryParse: the versions of a query are read from the characters before the '?' that ends the list and from
+// nowhere else (what follows is text for humans). Two shapes are recognised: the scan loop leaves at the first '?'
+// before the character is converted; or the scanned slice was cut at bytes.IndexByte(list, '?') whenever that is not
+// negative.
+func (a *An) c16QueryParse(rule string) {
+	R := a.R
+	f := a.MustFn("parseOTRQueryMessage")
+	if f == nil {
+		return
+	}
+	n := 0
+	for _, b := range f.Blocks {
+		for _, in := range b.Instrs {
+			call, ok := in.(*ssa.Call)
+			if !ok || a.F.callName(call) != "strconv.Atoi" {
+				continue
+			}
+			n++
+			// the character converted
+			var ch *ssa.UnOp
+			v := call.Call.Args[0]
+			for i := 0; i < 4; i++ {
+				if cv, isC := v.(*ssa.Convert); isC {
+					v = cv.X
+					continue
+				}
+				break
+			}
+			ch, _ = v.(*ssa.UnOp)
+			if ch == nil {
+				R.Undec(rule, "parseOTRQueryMessage|char", "the converted character is an element of the scanned slice", a.C.InstrPos(call), a.C.Term(call.Call.Args[0]))
+				continue
+			}
+			// shape A: a dominating test of this very character against '?' whose equal-branch leaves the loop
+			shapeA := false
+			for _, b2 := range f.Blocks {
+				iff, isIf := b2.Instrs[len(b2.Instrs)-1].(*ssa.If)
+				if !isIf || !b2.Dominates(b) || b2 == b && false {
+					continue
+				}
+				bo, isB := iff.Cond.(*ssa.BinOp)
+				if !isB || (bo.Op != token.EQL && bo.Op != token.NEQ) {
+					continue
+				}
+				x, k := bo.X, bo.Y
+				if _, isK := x.(*ssa.Const); isK {
+					x, k = k, x
+				}
+				kc, isK := k.(*ssa.Const)
+				if !isK || constStr(kc) != "63" {
+					continue
+				}
+				for i := 0; i < 4; i++ {
+					if cv, isC := x.(*ssa.Convert); isC {
+						x = cv.X
+						continue
+					}
+					break
+				}
+				if x != ssa.Value(ch) {
+					continue
+				}
+				eqSucc, neSucc := b2.Succs[0], b2.Succs[1]
+				if bo.Op == token.NEQ {
+					eqSucc, neSucc = neSucc, eqSucc
+				}
+				if !reachableFrom(eqSucc)[b] && (neSucc == b || neSucc.Dominates(b)) {
+					shapeA = true
+				}
+			}
+			// shape B: the scanned slice is the result of a helper that cuts at IndexByte(list, '?')
+			shapeB := false
+			if ia, isIA := ch.X.(*ssa.IndexAddr); isIA {
+				if hc, isCall := ia.X.(*ssa.Call); isCall {
+					if g := hc.Call.StaticCallee(); g != nil && a.C.IsLib(g) && g.Blocks != nil {
+						cut, other := 0, 0
+						for _, gb := range g.Blocks {
+							for _, gin := range gb.Instrs {
+								sl, isS := gin.(*ssa.Slice)
+								if !isS || sl.High == nil {
+									continue
+								}
+								ic, isC := sl.High.(*ssa.Call)
+								if !isC || a.F.callName(ic) != "bytes.IndexByte" || a.C.Term(ic.Call.Args[1]) != "63" || ic.Call.Args[0] != sl.X {
+									other++
+									continue
+								}
+								t := a.C.Term(ic)
+								fs := a.F.LocalAt(sl)
+								if fs.Has("passed:("+t+" >= 0)") || fs.Has("passed:("+t+" != -1)") || fs.Has("passed:("+t+" > -1)") {
+									cut++
+								} else {
+									other++
+								}
+							}
+						}
+						shapeB = cut == 1 && other == 0
+					}
+				}
+			}
+			R.Check(shapeA || shapeB, rule, "parseOTRQueryMessage|stops-at-terminator", "version digits are taken only from before the '?' that ends the version list", a.C.InstrPos(call),
+				"neither a scan that leaves the loop at the first '?' nor a slice cut at IndexByte(list,'?') for every non-negative index was found: digits in the human-readable text after the list are read as offered versions")
+		}
+	}
+	R.Check(n == 1, rule, "parseOTRQueryMessage|atoi", "one conversion site for version characters", a.C.Pos(f.Pos()), fmt.Sprintf("%d", n))
 }
